@@ -20,7 +20,8 @@ func errClass(err error) string {
 	return "other"
 }
 
-func parseVia(via, s string) (d d128.Decimal, err error) {
+func parseVia(via, s string, prev d128.Decimal) (d d128.Decimal, err error) {
+	d = prev
 	switch via {
 	case "Parse":
 		return d128.Parse(s)
@@ -38,7 +39,11 @@ func parseVia(via, s string) (d d128.Decimal, err error) {
 
 func init() {
 	execTable["Parse"] = func(e Ev) {
-		d, err := parseVia(e.str("via"), string(e.bytes("s")))
+		var prev d128.Decimal
+		if e.has("prev") {
+			prev = e.dec("prev")
+		}
+		d, err := parseVia(e.str("via"), string(e.bytes("s")), prev)
 		setRes(e, "r", d)
 		e["err"] = errClass(err)
 	}
@@ -59,7 +64,7 @@ func init() {
 		e["e1"] = ints(d128.Append(nil, x, 'e', -1))
 		e["f1"] = ints([]byte(d128.Format(x, 'f', -1)))
 		for _, v := range [][2]string{{"bp", "Parse"}, {"bu", "UnmarshalText"}, {"bs", "Sscan"}} {
-			d, err := parseVia(v[1], s)
+			d, err := parseVia(v[1], s, d128.Decimal{})
 			e.setDec(v[0], d)
 			e[v[0]+"err"] = errClass(err)
 		}
